@@ -1,7 +1,7 @@
-import ShexerModel.GeneratedStr
+import ShexerModel.Base.PyOps
 import ShexerModel.Model.Ttl
 import ShexerModel.Model.Profiler
-/-! The string functions regenerated from /repo's Python AST (`GeneratedStr.lean`, fragment S of the extractor) compute what
+/-! Facts about the Python-string primitives of `Base/PyOps.lean` and their relation to the hand-written helpers (`Nt.*`, `PyStr.*`), used by the obligations that tie the regenerated string functions (`GeneratedStr.lean`, fragment S of the extractor) compute what
 the hand-written models of the readers and of the profiler assume.  These equalities are proof obligations of C05, C06, C07,
 C08: a change to `remove_corners`, `decide_literal_type` or `build_shapes_name_for_class_uri` in /repo changes the generated
 definition and breaks them. -/
@@ -244,126 +244,6 @@ theorem endsWith_single (l : List Char) (c : Char) : PyOps.endsWith l [c] = (l.g
 
 theorem not_endsWith_single (l : List Char) (c : Char) : (!PyOps.endsWith l [c]) = (l.getLast? != some c) := by
   rw [endsWith_single]; rfl
-
-/-- `remove_corners(tok)` is `Nt.removeCorners` -/
-theorem remove_corners_strict (tok : List Char) : GenS.remove_corners tok true = convNt (Nt.removeCorners tok) := by
-  have h := slice_from_to_neg1 tok 1
-  simp only [GenS.remove_corners, Nt.removeCorners, startsWith_eq, endsWith_eq]
-  split
-  · simp only [convNt, pure, Except.pure, String.toList_ofList]
-    exact congrArg _ h
-  · rfl
-
-/-- `remove_corners(tok, raise_error_if_no_corners=False)` is `Ttl.removeCornersSoft` -/
-theorem remove_corners_soft (tok : List Char) : GenS.remove_corners tok false = .ok (Ttl.removeCornersSoft tok) := by
-  have h := slice_from_to_neg1 tok 1
-  simp only [GenS.remove_corners, Ttl.removeCornersSoft, startsWith_eq, endsWith_eq]
-  by_cases hc : (Nt.startsWith tok "<" && Nt.endsWith tok ">") = true
-  · simp only [hc, ↓reduceIte]; exact congrArg Except.ok h
-  · simp only [hc]; rfl
-
-theorem slice_3_neg1 (l : List Char) : slice l (some (3 : Int)) (some (-(1 : Int))) = (l.drop 3).dropLast := slice_from_to_neg1 l 3
-theorem slice_5 (l : List Char) : slice l (some (5 : Int)) none = l.drop 5 := slice_from l 5
-theorem slice_6 (l : List Char) : slice l (some (6 : Int)) none = l.drop 6 := slice_from l 6
-
-/-- `decide_literal_type(tok)` (no base namespace) is `Nt.decideType` -/
-theorem decide_literal_type_nt (resolve : List Char → List Char → List Char) (tok : List Char) :
-    GenS.decide_literal_type resolve tok none = convNt (Nt.decideType tok) := by
-  simp only [GenS.decide_literal_type, Nt.decideType, slice_rfind_quote, strip_eq, startsWith_eq, endsWith_eq,
-    slice_3_neg1, slice_5, slice_6]
-  generalize Nt.strip (Nt.afterLastQuote tok) = suffix
-  by_cases c1 : Nt.startsWith suffix "@" = true
-  · simp only [c1, ↓reduceIte]; rfl
-  by_cases c2 : (!Nt.startsWith suffix "^^") = true
-  · simp only [c1, c2, ↓reduceIte]; rfl
-  by_cases c3 : (Nt.startsWith suffix "^^<" && Nt.endsWith suffix ">") = true
-  · simp only [c1, c2, c3, Bool.false_eq_true, ↓reduceIte]
-    simp only [convNt, pure, Except.pure, String.toList_ofList]
-  by_cases c4 : Nt.startsWith suffix "^^xsd:" = true
-  · simp only [c1, c2, c3, c4, Bool.false_eq_true, ↓reduceIte, convNt, pure, Except.pure, String.toList_append, String.toList_ofList, Gen.XSD_NAMESPACE]
-  by_cases c5 : Nt.startsWith suffix "^^rdf:" = true
-  · simp only [c1, c2, c3, c4, c5, Bool.false_eq_true, ↓reduceIte, convNt, pure, Except.pure, String.toList_append, String.toList_ofList, Gen.RDF_SYNTAX_NAMESPACE]
-  by_cases c6 : Nt.startsWith suffix "^^dt:" = true
-  · simp only [c1, c2, c3, c4, c5, c6, Bool.false_eq_true, ↓reduceIte, convNt, pure, Except.pure, String.toList_append, String.toList_ofList, Gen.DT_NAMESPACE]
-  by_cases c7 : Nt.startsWith suffix "^^geo:" = true
-  · simp only [c1, c2, c3, c4, c5, c6, c7, Bool.false_eq_true, ↓reduceIte, convNt, pure, Except.pure, String.toList_append, String.toList_ofList, Gen.OPENGIS_NAMESPACE]
-  simp only [c1, c2, c3, c4, c5, c6, c7]; rfl
-
-/-- `decide_literal_type(tok, base_namespace)` is `Ttl.decideType` -/
-theorem decide_literal_type_ttl (resolve : List Char → List Char → List Char) (tok : List Char) (base : Option (List Char)) :
-    GenS.decide_literal_type resolve tok base = convTtl (Ttl.decideType resolve base tok) := by
-  simp only [GenS.decide_literal_type, Ttl.decideType, slice_rfind_quote, strip_eq, startsWith_eq, endsWith_eq,
-    slice_3_neg1, slice_5, slice_6]
-  generalize Nt.strip (Nt.afterLastQuote tok) = suffix
-  by_cases c1 : Nt.startsWith suffix "@" = true
-  · simp only [c1, ↓reduceIte]; rfl
-  by_cases c2 : (!Nt.startsWith suffix "^^") = true
-  · simp only [c1, c2, ↓reduceIte]; rfl
-  by_cases c3 : (Nt.startsWith suffix "^^<" && Nt.endsWith suffix ">") = true
-  · simp only [c1, c2, c3, Bool.false_eq_true, ↓reduceIte]
-    cases base with
-    | none => simp only [convTtl, pure, Except.pure, String.toList_ofList]
-    | some b => simp only [convTtl, pure, Except.pure, String.toList_ofList]
-  by_cases c4 : Nt.startsWith suffix "^^xsd:" = true
-  · simp only [c1, c2, c3, c4, Bool.false_eq_true, ↓reduceIte, convTtl, pure, Except.pure, String.toList_append, String.toList_ofList, Gen.XSD_NAMESPACE]
-  by_cases c5 : Nt.startsWith suffix "^^rdf:" = true
-  · simp only [c1, c2, c3, c4, c5, Bool.false_eq_true, ↓reduceIte, convTtl, pure, Except.pure, String.toList_append, String.toList_ofList, Gen.RDF_SYNTAX_NAMESPACE]
-  by_cases c6 : Nt.startsWith suffix "^^dt:" = true
-  · simp only [c1, c2, c3, c4, c5, c6, Bool.false_eq_true, ↓reduceIte, convTtl, pure, Except.pure, String.toList_append, String.toList_ofList, Gen.DT_NAMESPACE]
-  by_cases c7 : Nt.startsWith suffix "^^geo:" = true
-  · simp only [c1, c2, c3, c4, c5, c6, c7, Bool.false_eq_true, ↓reduceIte, convTtl, pure, Except.pure, String.toList_append, String.toList_ofList, Gen.OPENGIS_NAMESPACE]
-  simp only [c1, c2, c3, c4, c5, c6, c7]; rfl
-
-theorem slice_1 (l : List Char) : slice l (some (1 : Int)) none = l.drop 1 := slice_from l 1
-
-theorem stage1 (cs : List Char) :
-    (if (PyOps.isIn "#".toList cs && !PyOps.endsWith cs "#".toList) = true then
-        PyOps.slice cs (some (PyOps.rfind cs "#".toList + (1 : Int))) none else cs)
-    = (if (cs.contains '#' && cs.getLast? != some '#') = true then PyStr.afterLast cs '#' else cs) := by
-  have e : "#".toList = ['#'] := by simp
-  rw [e, isIn_single, not_endsWith_single, slice_rfind_afterLast]
-
-theorem stage2 (l1 : List Char) :
-    (if PyOps.isIn "/".toList l1 = true then
-        (if (!PyOps.endsWith l1 "/".toList) = true then PyOps.slice l1 (some (PyOps.rfind l1 "/".toList + (1 : Int))) none
-         else PyOps.slice l1 (some (PyOps.rfind (PyOps.slice l1 none (some (-(1 : Int)))) "/".toList + (1 : Int))) none)
-      else l1)
-    = (if l1.contains '/' = true then
-        (if (l1.getLast? != some '/') = true then PyStr.afterLast l1 '/'
-         else match PyStr.rfindIdx l1.dropLast '/' with
-              | none => l1
-              | some i => l1.drop (i + 1))
-       else l1) := by
-  have e : "/".toList = ['/'] := by simp
-  rw [e, isIn_single, not_endsWith_single, slice_rfind_afterLast, slice_to_neg1, slice_rfind]
-
-theorem stage3 (l2 : List Char) :
-    (if PyOps.endsWith l2 ">".toList = true then PyOps.slice l2 none (some (-(1 : Int))) else l2)
-    = (if PyStr.endsWith l2 ['>'] = true then l2.dropLast else l2) := by
-  have e : ">".toList = ['>'] := by simp
-  rw [e, slice_to_neg1]; rfl
-
-theorem stage4 (l3 : List Char) :
-    (if PyOps.startsWith l3 "<".toList = true then PyOps.slice l3 (some (1 : Int)) none else l3)
-    = (if PyStr.startsWith l3 ['<'] = true then l3.drop 1 else l3) := by
-  have e : "<".toList = ['<'] := by simp
-  rw [e, slice_1]; rfl
-
-/-- `build_shapes_name_for_class_uri(class_uri, shapes_namespace)` is `Profiler.shapeName` -/
-theorem shape_name (c ns : String) :
-    GenS.build_shapes_name_for_class_uri c.toList ns.toList = .ok (Profiler.shapeName c ns).toList := by
-  have e1 : "@".toList = ['@'] := by simp
-  have e2 : "<".toList = ['<'] := by simp
-  have e3 : ">".toList = ['>'] := by simp
-  simp only [GenS.build_shapes_name_for_class_uri, Profiler.shapeName, stage1, stage2, stage3, stage4]
-  simp only [startsWith_eq', endsWith_eq', e1, e2, e3]
-  by_cases c1 : PyStr.startsWith c.toList ['@'] = true
-  · simp only [c1, ↓reduceIte]; rfl
-  by_cases c2 : (PyStr.startsWith c.toList ['<'] && PyStr.endsWith c.toList ['>']) = true
-  · simp only [c1, c2, Bool.false_eq_true, ↓reduceIte, Gen.STARTING_CHAR_FOR_SHAPE_NAME, String.toList_append]; rfl
-  simp only [c1, c2, Bool.false_eq_true, ↓reduceIte, Gen.STARTING_CHAR_FOR_SHAPE_NAME, String.toList_append,
-    String.toList_ofList, pure, Except.pure, e2, e3]
-  rfl
 
 end GenStr
 end Shexer
